@@ -6,20 +6,25 @@ mod c01;
 mod c02;
 mod c03;
 mod c04;
+mod c05;
 mod c06;
 mod c07;
 mod c08;
 mod c09;
+mod c10;
 mod c11;
 mod c12;
 mod c13;
 mod c14;
+mod c15;
 mod c19;
 mod drive;
 mod mc;
 mod pkt;
+mod refstate;
 mod report;
 mod simnet;
+mod stateexp;
 mod strat;
 mod vclock;
 mod wire;
@@ -46,14 +51,17 @@ fn main() {
         "C02" => c02::run(&args),
         "C03" => c03::run(&args),
         "C04" => c04::run(&args),
+        "C05" => c05::run(&args),
         "C06" => c06::run(&args),
         "C07" => c07::run(&args),
         "C08" => c08::run(&args),
         "C09" => c09::run(&args),
+        "C10" => c10::run(&args),
         "C11" => c11::run(&args),
         "C12" => c12::run(&args),
         "C13" => c13::run(&args),
         "C14" => c14::run(&args),
+        "C15" => c15::run(&args),
         "C19" => c19::run(&args),
         other => {
             eprintln!("MACHINERY: unknown property {other}");
